@@ -63,13 +63,22 @@ def run(tier, seed):
     cases = [c["instrs"] for c in r.cases]
     index = {json.dumps(c, sort_keys=True): i for i, c in enumerate(cases)}
     inp = [{"id": i, "src": concretize(c)} for i, c in enumerate(cases)]
-    recs = core.project(core.expand(inp, "syn1"))
-    proj = [impls_of(rr["runs"][0]) for rr in recs]
+    # in chunks, keeping per impl only the marker and a digest of its text (24 impls per case: the thorough tier does not fit in memory otherwise)
+    import hashlib
+    proj, rejected = [None] * len(cases), {}
+    for lo in range(0, len(inp), 20000):
+        part = inp[lo:lo + 20000]
+        for x, rr in zip(part, core.project(core.expand(part, "syn1"))):
+            pr = impls_of(rr["runs"][0])
+            if pr is None:
+                rejected[x["id"]] = {k: v for k, v in rr["runs"][0].items() if k in ("verdict", "msgs", "site", "msg")}
+            else:
+                proj[x["id"]] = {key: (seen, hashlib.md5(txt.encode()).hexdigest()[:16]) for key, (seen, txt) in pr.items()}
     trace = []
     for i, c in enumerate(cases):
         p = proj[i]
         if p is None:
-            ctx.violation({"len": len(c)}, "rejected_or_unparseable", {"src": inp[i]["src"], "run": {k: v for k, v in recs[i]["runs"][0].items() if k in ("verdict", "msgs", "site", "msg")}})
+            ctx.violation({"len": len(c)}, "rejected_or_unparseable", {"src": inp[i]["src"], "run": rejected.get(i)})
             continue
         pre = proj[index[json.dumps(c[:-1], sort_keys=True)]] if c else None
         obs = []
